@@ -3,6 +3,6 @@
 set -e
 OUT=$1
 mkdir -p $OUT
-cd /repo/rust
+cd ${PI2_REPO:-/repo}/rust
 rustc +stable --edition 2021 -O --crate-type rlib --crate-name checker src/lib.rs --out-dir $OUT 2>$OUT/build.log
 rustc +stable --edition 2021 -O --crate-name checker_bin src/main.rs --extern checker=$OUT/libchecker.rlib -o $OUT/checker 2>>$OUT/build.log
